@@ -51,6 +51,7 @@ def run(ctx):
         check_r3(ctx, byname)
         check_r4(ctx, byname)
         check_r5(ctx, meths)
+        check_empty_semantics(ctx, byname)
 
 
 def check_r1(ctx, facts, cfg, byname, roles):
@@ -81,7 +82,7 @@ def check_r1(ctx, facts, cfg, byname, roles):
                            "load of Node::next in %s whose value is dereferenced/stored has order %s (>= acquire required)" % (m.base, a["order"]),
                            loc=n["loc"], fn=m)
     ctx.floor("C02.R1", "stores to Node::next", nstores, 2)
-    ctx.floor("C02.R1", "loads of Node::next", nloads, 2)
+    ctx.floor("C02.R1", "loads of Node::next", nloads, 1)
     # ---- ownership of _producer / _consumer (direct accesses)
     owner = {"_producer": "P", "_consumer": "C"}
     direct = {}
@@ -403,3 +404,35 @@ def check_r5(ctx, meths):
     starts = any(is_this_field(x, "_consumer") for x in m.walk() if x["k"] == "MemberExpr")
     ctx.ob("C02.R5", "~UnboundedSPSCQueue:frees-chain", ok and starts and len(dels) >= 1,
            "the destructor walks next from _consumer and deletes every remaining node", fn=m)
+
+
+def check_empty_semantics(ctx, byname, rule="C02.R6"):
+    """'the queue is empty' means: the consumer's node is empty AND the producer has not published a further node. Everything that
+    waits for quiescence (exit drain, context removal, logger removal, the batch-stop test) relies on it."""
+    from rules.common import flatten
+    m = byname["empty"]
+    g = m.g
+    rets = [g.node_ast(r) for r in g.return_nodes()]
+    ok = bool(rets)
+    why = []
+    for r in rets:
+        v = r.get("val")
+        if const_val(v) == 0:
+            continue  # 'not empty' needs no justification
+        parts = flatten(v, "&&")
+        node_empty = any(is_call(strip(x, casts=True), r"BoundedSPSCQueueImpl<.*>::empty$") for x in parts)
+        no_next = False
+        for x in parts:
+            nc = norm_cmp(x)
+            if nc and nc[0] == "==" and any((atomic_op(y) or {}).get("kind") == "load" and field_name(atomic_op(y)["obj"]) == "next" for y in walk(x)) and \
+                    ("nullptr" in nc[1:] or any(is_null(z) for z in (strip(x)["lhs"], strip(x)["rhs"]))):
+                no_next = True
+            sx = strip(x)
+            if isnode(sx) and sx["k"] == "UnaryOperator" and sx["op"] == "!" and any((atomic_op(y) or {}).get("kind") == "load" and field_name(atomic_op(y)["obj"]) == "next" for y in walk(sx)):
+                no_next = True
+        if not (node_empty and no_next):
+            ok = False
+            why.append("node empty: %s, no further node: %s" % (node_empty, no_next))
+    ctx.ob(rule, "UnboundedSPSCQueue::empty:considers-next-node", ok,
+           "empty() reports 'empty' only when the consumer's node is empty and no further node has been published%s" %
+           ((" — " + "; ".join(why)) if why else ""), fn=m)
